@@ -2,7 +2,7 @@
 //! perturbation at the sync points.  Every query result is judged by the prefix oracle; the complete sync-point
 //! log must be a path of the model and reproduce every snapshot.
 //!
-//!   (stress <fresh|restart> <combine factor> <absent-column queries 0|1> <queries per querier> <seed>)
+//!   (stress <fresh|restart> <combine factor> <0 plain | 1 absent-column queries | 2 eviction loop> <queries per querier> <seed>)
 use crate::dbenv::*;
 use crate::judge::*;
 use crate::sched::{final_layout, install_noter, DbSlot, Out, Verdict, OP_DEADLINE};
@@ -20,9 +20,10 @@ pub fn run(case: &Sx, dir: &Path) -> Vec<Out> {
     let variant = it[1].atom().to_string();
     let combine = it[2].as_u64();
     let lack = it[3].atom() == "1";
+    let evict = it[3].atom() == "2";
     let per_querier = it[4].as_usize();
     let seed = it[5].as_u64();
-    let context = format!("stress|{}|combine={}|{}", variant, combine, if lack { "abscol" } else { "plain" });
+    let context = format!("stress|{}|combine={}|{}", variant, combine, if lack { "abscol" } else if evict { "evict" } else { "plain" });
 
     install_panic_hook();
     let ctl = Controller::new();
@@ -92,6 +93,20 @@ pub fn run(case: &Sx, dir: &Path) -> Vec<Out> {
                 db.force_flush();
                 ctl2.note(Role::None, "h:flush_done", None);
                 std::thread::sleep(Duration::from_micros(500 + r.below(8000)));
+            }
+            OpRes::Done
+        }));
+    }
+    // eviction loop (dedicated class)
+    if evict {
+        let (ctl2, db, stop2) = (ctl.clone(), env.db.clone(), stop.clone());
+        let mut r = rng.fork(55);
+        handles.push(env.spawn("evict-loop", Role::None, move || {
+            while !stop2.load(Ordering::SeqCst) {
+                ctl2.note(Role::None, "h:evict_start", None);
+                db.evict_cache();
+                ctl2.note(Role::None, "h:evict_done", None);
+                std::thread::sleep(Duration::from_micros(300 + r.below(4000)));
             }
             OpRes::Done
         }));
